@@ -27,10 +27,11 @@ theorem C01_F_enumBitMap_enum_witness :
     c01Region (c01Pkg true ['F'] [tspec ['F', 'A'] ['F'] 1]) = "F_enumBitMap" ∧
     c01Model (c01Pkg true ['F'] [tspec ['F', 'A'] ['F'] 1]) = (0, true, false) := by decide
 
-/-- `type C int; const CA C = 1; func f() { const tmp C = 7 }`: exit 0, `tmp` is undefined at package level -/
-theorem C01_F_enumForeignConst_witness :
-    c01Region { c01Pkg false ['C'] [tspec ['C', 'A'] ['C'] 1] with locals := [[tspec ['t', 'm', 'p'] ['C'] 7]] } = "F_enumForeignConst" ∧
-    c01Model { c01Pkg false ['C'] [tspec ['C', 'A'] ['C'] 1] with locals := [[tspec ['t', 'm', 'p'] ['C'] 7]] } = (0, true, false) := by
+/-- `type C int; const CA C = 1; func f() { const tmp C = 7 }` (former region F_enumForeignConst, repaired in
+    /repo 17b8707 / b44c047): the const declarations inside function bodies play no role, the run is all-ok -/
+theorem C01_enumForeignConst_fixed (ls : List (List VSpec)) :
+    c01Region { c01Pkg false ['C'] [tspec ['C', 'A'] ['C'] 1] with locals := ls } = "WF" ∧
+    c01Model { c01Pkg false ['C'] [tspec ['C', 'A'] ['C'] 1] with locals := ls } = (0, true, true) := by
   decide
 
 /-- `type Format int; const ( json Format = iota; xml )` with -json: the constant collides with the import -/
